@@ -341,6 +341,14 @@ def check(prop, tier, seed, replay=None):
     fails = []          # dicts: kind ('proof'|'corr'|'prop'|'build'), clause, req, impl, model, detail
     notes = {}
 
+    # 0. translator tie: regenerate model sources from /repo's current text (DESIGN.md §4.5) ------
+    if hasattr(mod, "pre_build"):
+        try:
+            with Lock("lake"):
+                notes["pre_build"] = mod.pre_build(dict(repo=REPO, verif=VERIF, lean=LEAN, tier=tier))
+        except Exception as e:
+            fails.append(dict(kind="corr", clause="translator (pre_build) failed on the current source", detail=repr(e), req="", impl="", model=""))
+
     # 1. Lean side ---------------------------------------------------------------------------
     ok, blog = lean_build(prop, clean=(tier == "thorough" and not replay))
     obl = obligations(prop)
